@@ -60,7 +60,7 @@ class Evaluator(object):
         if isinstance(t, TVal):
             return cx.truthy_val(sv.e)
         if isinstance(t, TOpt):
-            inner = self.truthy(SV(t.get(cx, sv.e), t.inner))
+            inner = self.truthy(SV(t.get(cx, sv.e), t.inner, sv.meta))
             return z3.And(z3.Not(t.is_none(cx, sv.e)), inner)
         if isinstance(t, TObj):
             meta = sv.meta or {}
